@@ -269,11 +269,32 @@ func (e *omegaEnv) ruleAccountWriteback(rule string) {
 			}
 			vs := exprStr(mu.Value, shapeOpts)
 			isCache := func(x ssa.Instruction) bool {
-				st, ok := x.(*ssa.Store)
+				if st, ok := x.(*ssa.Store); ok {
+					return strings.HasSuffix(exprStr(st.Addr, shapeOpts), "GeneralArgs.ServiceAccount") && exprStr(st.Val, shapeOpts) == vs
+				}
+				// or a package helper that, on every path to its return, stores one of its parameters into the cached
+				// account, called with the same value for that parameter
+				call, ok := x.(*ssa.Call)
 				if !ok {
 					return false
 				}
-				return strings.HasSuffix(exprStr(st.Addr, shapeOpts), "GeneralArgs.ServiceAccount") && exprStr(st.Val, shapeOpts) == vs
+				g := call.Call.StaticCallee()
+				if g == nil || len(g.Blocks) == 0 || g.Pkg != f.Pkg {
+					return false
+				}
+				for i, p := range g.Params {
+					if i >= len(call.Call.Args) || exprStr(call.Call.Args[i], shapeOpts) != vs {
+						continue
+					}
+					storesParam := func(y ssa.Instruction) bool {
+						st, ok := y.(*ssa.Store)
+						return ok && strings.HasSuffix(exprStr(st.Addr, shapeOpts), "GeneralArgs.ServiceAccount") && resolveLocal(stripConv(st.Val)) == ssa.Value(p)
+					}
+					if _, skips := findPath(pathQuery{fn: g, target: isReturn, blocker: storesParam}); !skips {
+						return true
+					}
+				}
+				return false
 			}
 			// the explicit "not the current service" arm
 			notCur := func(ed edge) bool {
